@@ -5,6 +5,7 @@ import (
 	"go/token"
 	"go/types"
 	"os"
+	"sort"
 	"strings"
 
 	"golang.org/x/tools/go/ssa"
@@ -26,28 +27,49 @@ func checkC04(c *Ctx) (string, []string) {
 	if f := c.Fn("PVM", "chargeGasAndCheck"); f != nil {
 		eff := effectShapes(f, nil)
 		c.checkEffects("C04.charge-amount", "PVM.chargeGasAndCheck", f, eff, []string{"store p0.VM.Gas ← (*p0.VM.Gas - 10)"})
-		conds := condShapes(f)
-		c.Check(strings.Join(conds, ";") == "(*p0.VM.Gas < 0)", "C04.charge-amount", "PVM.chargeGasAndCheck · test", f.Pos(), "out-of-gas iff gas < 0 after the charge", "test is "+strings.Join(conds, ";"))
-		oog := condEdges(f, func(v ssa.Value) (bool, bool) { return exprStr(v, shapeOpts) == "(*p0.VM.Gas < 0)", true })
-		okRet := true
-		allInstrs(f, func(in ssa.Instruction) {
-			r, ok := in.(*ssa.Return)
+		// the tested quantity: the gas cell after the store, or the value that is stored
+		atoms := condAtoms(f, shapeOpts)
+		q := ""
+		for _, a := range atoms {
+			switch a {
+			case "(*p0.VM.Gas < 0)":
+				q = "*p0.VM.Gas"
+			case "((*p0.VM.Gas - 10) < 0)":
+				q = "(*p0.VM.Gas - 10)"
+			}
+		}
+		c.Check(q != "" && len(atoms) == 1, "C04.charge-amount", "PVM.chargeGasAndCheck · test", f.Pos(), "one test: the charged gas against 0", "test is "+strings.Join(atoms, ";"))
+		okRet := q != ""
+		for neg := int64(0); neg <= 1 && q != ""; neg++ {
+			r, ok := runWithAtoms(f, shapeOpts, func(s string) (int64, bool) {
+				switch s {
+				case "(" + q + " < 0)":
+					return neg, true
+				case "(0 <= " + q + ")":
+					return 1 - neg, true
+				}
+				return 0, false
+			}, nil)
 			if !ok {
-				return
+				okRet = false
+				break
 			}
 			res := retResults(r)[0]
+			isNil := false
 			if cst, isC := res.(*ssa.Const); isC && cst.Value == nil {
-				if guardedBy(f, in, oog) {
-					okRet = false
-				}
-				return
+				isNil = true
 			}
-			flds := structLiteralFields(res)
-			if flds == nil || exprStr(flds["ExitReason"], exprOpts{}) != c.constStr("PVM", "ExitOOG") || !guardedBy(f, in, oog) {
+			if neg == 0 && !isNil {
 				okRet = false
 			}
-		})
-		c.Check(okRet, "C04.charge-amount", "PVM.chargeGasAndCheck · results", f.Pos(), "ExitOOG exactly on the negative edge, nil otherwise", "results do not map gas<0 to ExitOOG and gas>=0 to nil")
+			if neg == 1 {
+				flds := structLiteralFields(res)
+				if isNil || flds == nil || exprStr(flds["ExitReason"], exprOpts{}) != c.constStr("PVM", "ExitOOG") {
+					okRet = false
+				}
+			}
+		}
+		c.Check(okRet, "C04.charge-amount", "PVM.chargeGasAndCheck · results", f.Pos(), "ExitOOG exactly when the charged gas is negative, nil otherwise (2/2 rows)", "results do not map gas<0 to ExitOOG and gas>=0 to nil")
 	}
 
 	ruleEngineStep(c, "C04.engine-step")
@@ -61,37 +83,79 @@ func checkC04(c *Ctx) (string, []string) {
 		"(*PVM.Interpreter).ExecuteInstructions":           {"(p0.Gas - 1)"},
 		"PVM.transfer":                                     {"(*cell(p0).VM.Gas - i64(cell(p0).VM.Registers[9]))", "0"},
 	}
-	for _, f := range c.SrcFuncs("PVM") {
-		allInstrs(f, func(in ssa.Instruction) {
-			st, ok := in.(*ssa.Store)
-			if !ok || gasT == nil {
+	isGasCellStore := func(in ssa.Instruction) (*ssa.Store, bool) {
+		st, ok := in.(*ssa.Store)
+		if !ok || gasT == nil {
+			return nil, false
+		}
+		pt, ok := st.Addr.Type().Underlying().(*types.Pointer)
+		if !ok || !types.Identical(pt.Elem(), gasT.Type()) {
+			return nil, false
+		}
+		if _, isAlloc := st.Addr.(*ssa.Alloc); isAlloc {
+			return nil, false
+		}
+		if rootedInLocal(st.Addr) {
+			return nil, false // construction of a fresh Interpreter/Host/VMState literal
+		}
+		return st, true
+	}
+	// the specified writers, each with the unexported helpers it calls seen through (their stores are the writer's, in the writer's terms)
+	ho := shapeOpts
+	ho.inline = func(g *ssa.Function) bool {
+		if g == nil || len(g.Blocks) == 0 || g.Pkg == nil || g.Pkg.Pkg.Path() != modPath+"/PVM" || token.IsExported(g.Name()) {
+			return false
+		}
+		_, isWriter := allowedStores[funcKey(g)]
+		return !isWriter
+	}
+	attributed := map[ssa.Instruction]bool{}
+	var writers []string
+	for k := range allowedStores {
+		writers = append(writers, k)
+	}
+	sort.Strings(writers)
+	for _, wk := range writers {
+		var wf *ssa.Function
+		for _, f := range c.SrcFuncs("PVM") {
+			if funcKey(f) == wk {
+				wf = f
+			}
+		}
+		if wf == nil {
+			continue
+		}
+		visitWithHelpers(wf, ho, func(g *ssa.Function, subst map[ssa.Value]string, in ssa.Instruction) {
+			st, ok := isGasCellStore(in)
+			if !ok {
 				return
 			}
-			pt, ok := st.Addr.Type().Underlying().(*types.Pointer)
-			if !ok || !types.Identical(pt.Elem(), gasT.Type()) {
-				return
-			}
-			if _, isAlloc := st.Addr.(*ssa.Alloc); isAlloc {
-				return
-			}
-			if rootedInLocal(st.Addr) {
-				return // construction of a fresh Interpreter/Host/VMState literal
-			}
-			s := exprStr(st.Val, shapeOpts)
-			key := funcKey(f) + " · Gas ← " + s
+			attributed[in] = true
+			s := exprStrSubst(st.Val, shapeOpts, subst)
+			key := wk + " · Gas ← " + s
 			okS := false
-			for _, a := range allowedStores[funcKey(f)] {
+			for _, a := range allowedStores[wk] {
 				if a == s {
 					okS = true
 				}
 			}
-			c.Check(okS, "C04.gas-writers", key, in.Pos(), "allowed gas update", "gas cell written with "+s+" in "+funcKey(f)+" — not one of the specified charges")
-			if funcKey(f) == "PVM.transfer" && strings.Contains(s, "Registers[9]") {
-				pass := condEdges(f, func(v ssa.Value) (bool, bool) {
-					return exprStr(v, shapeOpts) == "(u64(*cell(p0).VM.Gas) < cell(p0).VM.Registers[9])", false
+			c.Check(okS, "C04.gas-writers", key, in.Pos(), "allowed gas update", "gas cell written with "+s+" in "+funcKey(g)+" (reached from "+wk+") — not one of the specified charges")
+			if wk == "PVM.transfer" && strings.Contains(s, "Registers[9]") {
+				pass := condEdges(g, func(v ssa.Value) (bool, bool) {
+					return exprStrSubst(v, shapeOpts, subst) == "(u64(*cell(p0).VM.Gas) < cell(p0).VM.Registers[9])", false
 				})
-				c.Check(guardedBy(f, in, pass), "C04.gas-writers", "PVM.transfer · unsigned affordability test", in.Pos(), "Gas -= l only after uint64(Gas) >= l", "transfer subtracts its gas limit without the unsigned test uint64(Gas) < l (limits ≥ 2^63 would add gas)")
+				c.Check(guardedBy(g, in, pass), "C04.gas-writers", "PVM.transfer · unsigned affordability test", in.Pos(), "Gas -= l only after uint64(Gas) >= l", "transfer subtracts its gas limit without the unsigned test uint64(Gas) < l (limits ≥ 2^63 would add gas)")
 			}
+		})
+	}
+	for _, f := range c.SrcFuncs("PVM") {
+		allInstrs(f, func(in ssa.Instruction) {
+			st, ok := isGasCellStore(in)
+			if !ok || attributed[in] {
+				return
+			}
+			s := exprStr(st.Val, shapeOpts)
+			c.Bad("C04.gas-writers", funcKey(f)+" · Gas ← "+s, in.Pos(), "gas cell written with %s in %s — not one of the specified writers (engine step, host-call charge, transfer's extra gas) nor a helper they call", s, funcKey(f))
 		})
 	}
 
@@ -101,7 +165,36 @@ func checkC04(c *Ctx) (string, []string) {
 		if dump {
 			dumpShapes("R", rs)
 		}
-		c.checkShapes("C04.reported-usage", "PVM.R", f, rs, map[string][]string{"ret#0": {"i64((p0 - u64(max(*p1.VM.Gas, 0))))"}})
+		_ = rs
+		bad := ""
+		nret := 0
+		allInstrs(f, func(in ssa.Instruction) {
+			r, ok := in.(*ssa.Return)
+			if !ok || bad != "" {
+				return
+			}
+			nret++
+			for _, g := range []int64{-5, -1, 0, 1, 7} {
+				env := intEnv{params: map[ssa.Value]int64{f.Params[0]: 100}, lens: map[ssa.Value]int64{}, unknown: map[ssa.Value]bool{}, cells: map[ssa.Value]int64{}}
+				env.opaque = func(v ssa.Value) (int64, bool) {
+					if exprStr(v, shapeOpts) == "*p1.VM.Gas" {
+						return g, true
+					}
+					return 0, false
+				}
+				got, ok := evalInt(retResults(r)[0], env, 0)
+				want := 100 - max(g, 0)
+				if !ok {
+					bad = "the reported usage " + exprStr(retResults(r)[0], shapeOpts) + " is not a function of (supplied gas, remaining gas)"
+				} else if got != want {
+					bad = fmt.Sprintf("with 100 gas supplied and %d remaining R reports %d used; GP reports supplied − max(remaining, 0) = %d", g, got, want)
+				}
+				if bad != "" {
+					break
+				}
+			}
+		})
+		c.Check(bad == "" && nret > 0, "C04.reported-usage", "PVM.R · ret#0", f.Pos(), "every arm reports supplied − max(remaining, 0) (evaluated for remaining ∈ {−5, −1, 0, 1, 7})", bad)
 	}
 	if f := c.Fn("PVM", "Psi_M"); f != nil {
 		rs := returnShapes(f)
@@ -181,7 +274,97 @@ func ruleEngineStep(c *Ctx, rule string) {
 			// a call of a function value taking the interpreter
 			return len(call.Call.Args) >= 1 && strings.Contains(types.TypeString(call.Call.Args[0].Type(), nil), "Interpreter")
 		}
-		low := condEdges(f, func(v ssa.Value) (bool, bool) { return exprStr(v, shapeOpts) == "(p0.Gas < 1)", true })
+		lowTest := func(v ssa.Value) (bool, bool) {
+			switch exprStr(v, shapeOpts) {
+			case "(p0.Gas < 1)":
+				return true, true
+			case "(1 <= p0.Gas)":
+				return true, false
+			}
+			return false, false
+		}
+		low := condEdges(f, lowTest)
+		// the charge may be a helper method: it must leave Gas alone and report failure when Gas < 1, and otherwise store Gas - 1 and report success
+		var chargeHelper *ssa.Function
+		allInstrs(f, func(in ssa.Instruction) {
+			if call, ok := in.(*ssa.Call); ok && len(low) == 0 {
+				if h := call.Call.StaticCallee(); h != nil && h.Signature.Recv() != nil && len(h.Blocks) > 0 && h.Pkg == f.Pkg && h.Signature.Results().Len() == 1 && isBoolT(h.Signature.Results().At(0).Type()) {
+					hasStore := false
+					allInstrs(h, func(x ssa.Instruction) {
+						if isGasStore(x) {
+							hasStore = true
+						}
+					})
+					if hasStore {
+						chargeHelper = h
+					}
+				}
+			}
+		})
+		helperCharge := func(in ssa.Instruction) bool {
+			call, ok := in.(*ssa.Call)
+			return ok && chargeHelper != nil && call.Call.StaticCallee() == chargeHelper
+		}
+		if chargeHelper != nil {
+			h := chargeHelper
+			hkey := "PVM." + h.Name()
+			hlow := condEdges(h, lowTest)
+			hnot := make([]edge, len(hlow))
+			for i, ed := range hlow {
+				hnot[i] = edge{ed.from, 1 - ed.succ}
+			}
+			okH := len(hlow) == 1
+			allInstrs(h, func(x ssa.Instruction) {
+				if isGasStore(x) {
+					if exprStr(x.(*ssa.Store).Val, shapeOpts) != "(p0.Gas - 1)" || !guardedBy(h, x, hnot) {
+						okH = false
+					}
+				}
+				if r, isR := x.(*ssa.Return); isR {
+					k, isC := r.Results[0].(*ssa.Const)
+					if !isC || k.Value == nil {
+						okH = false
+						return
+					}
+					if k.Value.String() == "true" {
+						// success only after the decrement
+						if _, skip := findPath(pathQuery{fn: h, target: func(y ssa.Instruction) bool { return y == x }, blocker: isGasStore}); skip || !guardedBy(h, x, hnot) {
+							okH = false
+						}
+					} else {
+						// failure only on Gas < 1 and without a store
+						if !guardedBy(h, x, hlow) {
+							okH = false
+						}
+						if _, viaStore := findPath(pathQuery{fn: h, target: func(y ssa.Instruction) bool { return y == x }, blocker: func(y ssa.Instruction) bool { return false }}); viaStore {
+							// reachable: make sure no store lies on a path to it
+							for _, b := range h.Blocks {
+								for _, y := range b.Instrs {
+									if isGasStore(y) {
+										if _, after := findPath(pathQuery{start: y, target: func(z ssa.Instruction) bool { return z == x }}); after {
+											okH = false
+										}
+									}
+								}
+							}
+						}
+					}
+				}
+			})
+			c.Check(okH, rule, hkey+" · charge step", h.Pos(), "Gas < 1 ⇒ failure, Gas untouched; otherwise Gas ← Gas − 1 and success", "the charge helper does not test Gas < 1 before decrementing by exactly one, or reports success without charging")
+			// in the engine: success edge of the helper's result
+			low = condEdges(f, func(v ssa.Value) (bool, bool) {
+				if call, ok := v.(*ssa.Call); ok && call.Call.StaticCallee() == h {
+					return true, false
+				}
+				if u, ok := v.(*ssa.UnOp); ok && u.Op == token.NOT {
+					if call, ok := u.X.(*ssa.Call); ok && call.Call.StaticCallee() == h {
+						return true, true
+					}
+				}
+				return false, false
+			})
+		}
 		notLow := make([]edge, len(low))
 		for i, ed := range low {
 			notLow[i] = edge{ed.from, 1 - ed.succ}
@@ -196,16 +379,19 @@ func ruleEngineStep(c *Ctx, rule string) {
 			case isDispatch(in):
 				nd++
 				c.Check(guardedBy(f, in, notLow), rule, key+" · dispatch guarded", in.Pos(), "dispatch only on the Gas >= 1 edge", "an instruction can be dispatched without passing the Gas < 1 test")
-				// a decrement between the (last) test edge and the dispatch, on every path
-				_, skip := findPath(pathQuery{startEdges: notLow, target: func(x ssa.Instruction) bool { return x == in }, blocker: isGasStore})
-				c.Check(!skip, rule, key+" · charged before dispatch", in.Pos(), "every path from the gas test to the dispatch decrements Gas", "an instruction can be dispatched without being charged")
+				// a decrement between the (last) test edge and the dispatch, on every path (with a charge helper the decrement precedes its success edge)
+				skip := false
+				if chargeHelper == nil {
+					_, skip = findPath(pathQuery{startEdges: notLow, target: func(x ssa.Instruction) bool { return x == in }, blocker: isGasStore})
+				}
+				c.Check(!skip && len(notLow) > 0, rule, key+" · charged before dispatch", in.Pos(), "every path from the gas test to the dispatch decrements Gas", "an instruction can be dispatched without being charged")
 				// at most one decrement between test and dispatch
 				double := false
 				allInstrs(f, func(s1 ssa.Instruction) {
-					if !isGasStore(s1) {
+					if !isGasStore(s1) && !helperCharge(s1) {
 						return
 					}
-					if _, again := findPath(pathQuery{start: s1, target: isGasStore, blocker: isDispatch}); again {
+					if _, again := findPath(pathQuery{start: s1, target: func(y ssa.Instruction) bool { return isGasStore(y) || helperCharge(y) }, blocker: isDispatch}); again {
 						double = true
 					}
 				})
